@@ -60,6 +60,10 @@ CLAIMED["C14"] = dict(engine="cluster", design="§6 C14, §3.4",
    technique=TECH + "real master and volume servers on a simulated network; every vacuum RPC parked and released per plan with per-(replica, phase) verdicts ok / request dropped / response lost / delayed past the time-out and a chosen completion order; invariants at the wire and end-state comparison of replicas",
    text="The master's own Topology.Vacuum runs against 1-3 real volume servers holding a replicated volume with garbage; each check/compact/commit/cleanup RPC is parked on the simulated network and released with a plan-chosen verdict and order (fake clock lets the 1- and 3-minute phase time-outs fire); client uploads happen during and after the round. Checked: no commit to a replica whose compaction was not acknowledged in the round; every key reads identically from every replica and live blobs are intact; the volume is writable three heartbeats after the round exactly if it was before.",
    note=CLUSTERNOTE)
+CLAIMED["C22"] = dict(engine="logsim", design="§6 C22, §5.5",
+   technique=TECH + "scheduler-stepped appenders, two-phase flush function, fake-clock interval flusher and 1-4 subscribers (real LoopProcessLogData parked in its callbacks) over the real LogBuffer; exactly-once / ordering / bounded-delivery oracle over each subscriber's delivered sequence",
+   text="Appends with caller, buffer-assigned, racing and client timestamps, rotations by size, by time and by the interval flusher, flushes whose completion lags by a plan-chosen number of generations, and subscribers starting at drawn timestamps (zero, exact event timestamps, +-1 ns around buffer and flush boundaries, future) are interleaved step by step; each subscriber must receive exactly the events later than its start, once, in increasing timestamp order, whether served from the current buffer, sealed buffers or the captured flushed segments, and everything must have arrived after appends stop, flushes complete and fake time passes. The data-race clause is not decided.",
+   note="Trusted: the subscriber loop is a line-by-line copy of SubscribeLocalMetadata around the real LoopProcessLogData; the disk is in memory with the file naming / selection of filer_notify.go mirrored; interleaving granularity is whole LogBuffer calls and subscriber callbacks. The aggregated (multi-filer) path is not modelled.")
 
 PLANNED = {}
 
